@@ -250,7 +250,7 @@ def h_hit_equals_miss(opname):
 def conditions(tier):
     q = tier == 'quick'
     conds = []
-    T = 200 if q else 1200
+    T = 200 if q else 450
 
     def add(cid, fn, bounds, setup=env.live_caches, **params):
         conds.append(Cond(cid, fn, bounds, D, params, timeout=T, setup=setup))
